@@ -1,4 +1,6 @@
 import EtVerif.Props.C07
+import EtVerif.Props.C12
+import EtVerif.Props.TieMmap
 #print axioms EtVerif.C07.mulVec_cancel_safe
 #print axioms EtVerif.C07.mulVec_wrong_only_without_recheck
 #print axioms EtVerif.C07.mulVec_cancel_unsafe_witness
@@ -19,3 +21,7 @@ import EtVerif.Props.C07
 #print axioms EtVerif.C07.source_compute_transpose_safe
 #print axioms EtVerif.C07.source_mulVec_safe
 #print axioms EtVerif.C07.mulVec_cancel_safe_source
+-- cancellation of a swap-out (Mmap): failure (incl. ctx cancellation at any row) leaves matrix, rows and mapping intact
+#print axioms EtVerif.C12.mmap_fail_intact
+#print axioms EtVerif.C12.mmap_fail_usable
+#print axioms EtVerif.C12.mmap_ctx_iff
